@@ -152,7 +152,7 @@ def FullStatement : Prop :=
     initialWindowSize + m.sumWU - m.sumData = m.configured
 
 /-- Witness (by design): one 100-byte body read to EOF — no WINDOW_UPDATE is owed
-(corpus/C10/witness.server.ops case 0 is this trace recorded from the real server). -/
+(corpus/C10/witness.rigs.ops case 0 is this trace recorded from the real server). -/
 def witnessResidue : List Line :=
   [⟨.reset 1048576 1048576, [.set 1048576, .wu 0 983041, .other]⟩,
    ⟨.hdr 1 (-1) false, []⟩,
